@@ -88,3 +88,16 @@ func (s *Scanner) VerifStepStackLen() int { return len(s.stepStack) }
 
 // VerifEventStackLen returns the number of open lexeme events.
 func (s *Scanner) VerifEventStackLen() int { return len(s.stack) }
+
+// VerifOpenLexeme returns the type of the innermost lexeme whose beginning has been seen but
+// whose end has not, and the bytes of it read so far (nil when no lexeme is open).
+func (s *Scanner) VerifOpenLexeme() (LexemeEventType, []byte, bool) {
+	if len(s.stack) == 0 {
+		return 0, nil, false
+	}
+	e := s.stack[len(s.stack)-1]
+	if e.position > s.curIndex || s.curIndex > s.dataSize {
+		return e.type_, nil, true
+	}
+	return e.type_, s.data[e.position:s.curIndex], true
+}
